@@ -2,7 +2,7 @@
    Only statements; proofs are in Proofs/GreedyP*.v. *)
 From Coq Require Import ZArith Bool List Sorting.Sorted Permutation.
 Import ListNotations.
-From Verif Require Import Model.Val Gen.Src_Greedy Model.Greedy Proofs.GreedyP Proofs.GreedyP2 Proofs.GreedyP3.
+From Verif Require Import Model.Val Gen.Src_Greedy Model.Greedy Proofs.GreedyP Proofs.GreedyP2 Proofs.GreedyP3 Proofs.GreedyP6.
 Open Scope Z_scope.
 
 (* For every policy of the family, every ledger, every cluster with distinct pool ids and every list of
@@ -48,6 +48,20 @@ Theorem C10_greedy_feasible_simple : forall P e pre now (c : cluster SL) offered
   Forall (fun p => Forall (fun w => Forall (fun en => 0 <= e_avail en <= e_total en) w) (snd p)) cf.
 Proof. intros P e pre now c offered ds cf H1 H2 H3. exact (proj1 (feasible_laws SL s_wle s_wok s_sok SL_laws P e pre now c offered ds cf H1 H2 H3)). Qed.
 Print Assumptions C10_greedy_feasible_simple.
+
+(* capacity in arithmetic form (simple ledger): for every pool and resource name, what is free in the pool after
+   planning = what was free on the planning copy (live occupancy, or the totals when preemptive) minus the summed
+   requests of the placements returned for that pool; it is >= 0, so the placements returned for a pool never ask
+   in total for more of a resource than the pool had free next to the tasks already running there *)
+Theorem C10_greedy_capacity_simple : forall P e pre now (c : cluster SL) offered ds cf,
+  NoDup (map (@t_id SL) offered) -> NoDup (map fst c) -> s_cok c -> s_tasks_ok offered ->
+  schedule_full SL P e pre now c offered = Ok (ds, cf) ->
+  forall pid n,
+    cluster_avail cf pid n = cluster_avail (virtual SL P pre c) pid n - placed_demand offered ds pid n /\
+    0 <= cluster_avail cf pid n /\
+    placed_demand offered ds pid n <= cluster_avail (virtual SL P pre c) pid n.
+Proof. exact capacity_simple. Qed.
+Print Assumptions C10_greedy_capacity_simple.
 
 (* the placement reported for a task is the first strategy that fits some pool and the first pool that
    accommodates it *)
